@@ -145,11 +145,19 @@ package luasandbox
 //@   ensures randomseedNil: err == nil && typeIs(gVal["math"], *lua.LTable) ==> fNil[libTable("math")]["randomseed"]
 //@   ensures librariesProtected: err == nil ==> libProtected("string") && libProtected("math") && libProtected("coroutine") && libProtected("table")
 //@   ensures deadlineSet: err == nil ==> ctxSeconds != 0 && (ctxSeconds == options.LuaTimeout || ctxSeconds == LuaTimeOut)
+//@   # in terms of what the caller passed: the deadline is the default or the value of a WithLuaTimeout option
+//@   ensures deadlineFromOption: err == nil ==> ctxSeconds != 0 && (ctxSeconds == LuaTimeOut || (exists i :: 0 <= i && i < len(opts) && isOpt(opts[i], "luasandbox.WithLuaTimeout") && ctxSeconds == optArg(opts[i], int)))
+//@   ensures freshEnvironment: err == nil ==> env != nil && fresh(env) && env.lState != nil
 //@   loop 1:
-//@     cut
+//@     # functional options: the configured timeout is 0 or the value captured by a WithLuaTimeout closure
+//@     assumeinv optionSemantics: options != nil && (options.LuaTimeout == 0 || (exists i :: 0 <= i && i <= rangeindex && isOpt(opts[i], "luasandbox.WithLuaTimeout") && options.LuaTimeout == optArg(opts[i], int)))
 //@   loop 2:
 //@     cut
 
 //@ func ext:github.com/yuin/gopher-lua.NewState -> (s)
 //@   trusted
 //@   ensures s != nil && fresh(s)
+
+//@ func (*LuaEnvironment).Cleanup
+//@   trusted
+//@   pure
